@@ -308,7 +308,7 @@ func mkConfKeyTree(name string, fp *faultPlan) *vNodeT {
 		pairs = append(pairs, k, v)
 	}
 	vary := 0
-	if fp.budget == 0 {
+	if fp.budget == 0 && !keyTreeNoVary {
 		vary = vChoose(name+".vary", 5) // 0 none, 1 x, 2 y, 3 d, 4 curve value
 	}
 	oddLen := 0
@@ -378,6 +378,8 @@ func mkConfKeyTree(name string, fp *faultPlan) *vNodeT {
 	}
 	return nnMap(pairs, vWidth(name+".mw", uint64(len(pairs)/2)))
 }
+
+var keyTreeNoVary bool
 
 func H_C06_key_faulted() {
 	fp := mkFaultPlan(vChoose("budget", c05Budget()+1))
